@@ -181,11 +181,15 @@ type tRun struct {
 	termReason error
 	termStep   int
 	obsLink    []error // reasons seen by the linked observer
-	obsMon     []error
-	trappedOK  int // exit signals from non-parents received as messages
-	afterTerm  []string
-	issued     map[string]int
-	parentExit bool
+	// observers of the registered name (actors and pools, not meta-processes)
+	nameObservers bool
+	obsLinkName   []error
+	obsMonName    []error
+	obsMon        []error
+	trappedOK     int // exit signals from non-parents received as messages
+	afterTerm     []string
+	issued        map[string]int
+	parentExit    bool
 	// the meta-process' Start was told to return (its termination then races with the handler goroutine)
 	startReturned bool
 }
@@ -450,8 +454,8 @@ func (t *tRun) spawnTarget() bool {
 // observers: one linked (trapping) and one monitoring actor
 func (t *tRun) spawnObservers() bool {
 	e, n := t.e, t.n
-	ready := make(chan struct{}, 2)
-	mk := func(name string, link bool) bool {
+	ready := make(chan struct{}, 4)
+	mk := func(name string, link bool, byName bool) bool {
 		h := &Hooks{Name: name, Env: e, Trap: true}
 		h.Message = func(p *Probe, from gen.PID, m any) error {
 			switch v := m.(type) {
@@ -461,6 +465,9 @@ func (t *tRun) spawnObservers() bool {
 					var target any = t.target
 					if t.c.Kind == "meta" {
 						target = t.metaID
+					} else if byName {
+						// top-level trapping actors (their parent is the node core) watching the registered name
+						target = gen.ProcessID{Name: "target", Node: n.Name()}
 					}
 					if link {
 						err = p.Link(target)
@@ -472,6 +479,14 @@ func (t *tRun) spawnObservers() bool {
 					}
 					ready <- struct{}{}
 				}
+			case gen.MessageExitProcessID:
+				t.mu.Lock()
+				t.obsLinkName = append(t.obsLinkName, v.Reason)
+				t.mu.Unlock()
+			case gen.MessageDownProcessID:
+				t.mu.Lock()
+				t.obsMonName = append(t.obsMonName, v.Reason)
+				t.mu.Unlock()
 			case gen.MessageExitPID:
 				t.mu.Lock()
 				t.obsLink = append(t.obsLink, v.Reason)
@@ -499,11 +514,19 @@ func (t *tRun) spawnObservers() bool {
 		n.Send(pid, "watch")
 		return true
 	}
-	if !mk("obs-link", true) || !mk("obs-mon", false) {
+	if !mk("obs-link", true, false) || !mk("obs-mon", false, false) {
 		return false
 	}
+	want := 2
+	if t.c.Kind != "meta" {
+		if !mk("obs-link-name", true, true) || !mk("obs-mon-name", false, true) {
+			return false
+		}
+		want = 4
+		t.nameObservers = true
+	}
 	e.Settle(time.Millisecond)
-	if len(ready) != 2 {
+	if len(ready) != want {
 		t.unexpected("observer actors did not handle their first message")
 		return false
 	}
